@@ -600,6 +600,11 @@ impl Driver {
                     return None;
                 }
             }
+            if mem::packed() && r.buf_start != 0 {
+                // back-to-back placement: an empty handle at the end of its block has the address of the
+                // next block's start, so identify the storage by the buffer start reported by H2
+                return mem::find_live(r.buf_start).map(|b| b.seq);
+            }
             mem::find_live(p).map(|b| b.seq)
         } else if r.buf_start != 0 && r.buf_cap != 0 {
             Some(r.buf_start as u64)
